@@ -576,8 +576,11 @@ class Namer:
     let_template = "__c{}"
 
     def __init__(self, *, let_names, register_names):
-        self.let_names = let_names
-        self.register_names = register_names
+        # Lets and registers share one namespace in Jaqal, so a generated
+        # name must avoid the user-chosen names of both kinds.
+        user_names = [n for n in (*let_names, *register_names) if n is not None]
+        self.let_names = user_names
+        self.register_names = user_names
         self.next_let = 0
         self.next_register = 0
 
